@@ -10,6 +10,12 @@ CHECKS = {
  "C12": dict(cat="proof", tech="abstract interpretation: intervals + residue classes mod q + trace partitioning",
    text="Static proof obligations over ALL inputs: for Felt::new (every i16) and add/sub/neg/mul/multiply/inverse_or_zero/div/value/balanced_value/zero/one and the *_assign forms (every canonical pair) the abstract result lies in [0,q) (resp. [-6144,6144]) and carries the mathematically correct residue class as a polynomial identity mod q in the input symbols; every overflow/division assert in those bodies is discharged; every site that constructs a Felt is one of the analysed functions; batch inversion is analysed symbolically for every zero/non-zero pattern of lengths 1..3. The suite samples 100 random pairs; this covers the edge residues (0, q-1, -q, i16::MIN) by construction.",
    note=TRUST + "Invariant assumed inductively: Felt arguments are canonical. Batch inversion for lengths > 3 is not decided.", ref="4/C12"),
+ "C03": dict(cat="other", tech="abstract interpretation of the decoder/verify cones: intervals + symbolic difference bounds + exact unrolling of length-controlled loops",
+   text="Static: every panic source (overflow/bounds/division asserts, explicit panics, unwrap, modelled preconditions, unmodelled may-panic calls) met in the cones of the three from_bytes decoders (input length partitioned below/at/above the specified size, bytes arbitrary) and of verify (message arbitrary, signature/public key any value of their type, type invariants from a constructor census) is an obligation that the abstract interpreter discharges for ALL inputs, for both variants, in the dev profile (overflow checks on). The NTT layer is discharged by unrolling the length-determined index skeleton. This is the class of input (crafted byte strings) the suite never feeds.",
+   note=TRUST + "Assumed (listed in the evidence): from_b0's floating-point LDL construction on decoded secret keys (assumption h); in the quick tier the n=1024 transform layer (unrolled in the thorough tier). Not claimed: termination of the hash rejection loop, memory exhaustion.", ref="4/C03"),
+ "C14": dict(cat="proof", tech="abstract interpretation of hash_to_point: predicate extraction on the 16-bit sample, XOF identity, use analysis of n; call-graph effect analysis",
+   text="Static, for every input string and both degrees: the XOF is sha3 SHAKE-256 absorbed once with exactly the input and squeezed 2 bytes at a time; bytes are combined big-endian; a sample is kept iff t in [0,61444] (characterised on the whole 16-bit range, equals 5q-1 and PQClean's threshold); the pushed value is t mod q and canonical; the result has exactly n coefficients; n influences only the loop exit (prefix property); the cone has no entropy/OS leaf. The suite has 3 known-answer strings and cannot see a threshold off by one (hit by ~1% of inputs).",
+   note=TRUST + "SHAKE-256 itself (sha3 crate) is trusted.", ref="4/C14"),
 }
 NA = {
  "C17": "algebraic/numeric equivalence of two Babai reductions at run-time magnitudes; no structural clause that is both decidable and a substantial necessary condition (DESIGN.md section 4, C17)",
